@@ -30,6 +30,10 @@ pub fn trace_residual<R: Residual>(model: &R, s: &RState) -> Prog {
 
 pub struct Traced {
     pub prog: Prog,
+    /// the un-deduplicated program of the first trace state (for shape comparisons)
+    pub raw: Prog,
+    /// constant slot remapping raw -> prog
+    pub remap: Vec<u32>,
     pub same_shape: bool,
     pub leaks: Vec<usize>,
     pub leak_values: Vec<(f64, f64)>,
@@ -41,9 +45,80 @@ pub fn trace_two<R: Residual>(model: &R, a: &RState, b: &RState) -> Traced {
     let pb = trace_residual(model, b);
     let c = compare(&pa, &pb);
     let leak_values = c.leaks.iter().map(|&i| (pa.consts[i], pb.consts[i])).collect();
+    let raw = pa.clone();
     let mut prog = pa;
-    prog.dedup_consts();
-    Traced { prog, same_shape: c.same_shape, leaks: c.leaks, leak_values }
+    let remap = prog.dedup_consts_keep(&c.leaks);
+    Traced { prog, raw, remap, same_shape: c.same_shape, leaks: c.leaks, leak_values }
+}
+
+impl Traced {
+    /// constant table of the program when traced at another state (`None`: the shape differs there);
+    /// constants that are not state dependent keep their value, leaked slots get the value of that state
+    pub fn consts_at<R: Residual>(&self, model: &R, s: &RState) -> Option<Vec<f64>> {
+        let p = trace_residual(model, s);
+        let c = compare(&self.raw, &p);
+        if !c.same_shape {
+            return None;
+        }
+        let mut out = self.prog.consts.clone();
+        for (i, v) in p.consts.iter().enumerate() {
+            out[self.remap[i] as usize] = *v;
+        }
+        Some(out)
+    }
+}
+
+/// All distinct program shapes met at the trace state and the validation states.
+pub struct ProgramSet {
+    pub progs: Vec<Traced>,
+    /// (program index, state, constant table of that program at that state)
+    pub tv: Vec<(usize, RState, Vec<f64>)>,
+}
+
+/// Trace at `a`/`b` (leak detection) and assign every validation state to a program of matching shape,
+/// tracing a further program (at `s` and a slightly hotter twin) when no existing shape matches.
+pub fn trace_set<R: Residual>(model: &R, a: &RState, b: &RState, tv_states: &[RState]) -> ProgramSet {
+    let mut progs = vec![trace_two(model, a, b)];
+    let mut tv = Vec::new();
+    for s in tv_states {
+        let mut found = None;
+        for (i, p) in progs.iter().enumerate() {
+            if let Some(cs) = p.consts_at(model, s) {
+                found = Some((i, cs));
+                break;
+            }
+        }
+        let (i, cs) = match found {
+            Some(x) => x,
+            None => {
+                let mut s2 = s.clone();
+                s2.t *= 1.0 + 1e-3;
+                let t = trace_two(model, s, &s2);
+                let cs = t.prog.consts.clone();
+                progs.push(t);
+                (progs.len() - 1, cs)
+            }
+        };
+        tv.push((i, s.clone(), cs));
+    }
+    ProgramSet { progs, tv }
+}
+
+impl ProgramSet {
+    /// Coq definition `<prefix><i>_inputs : list (list (Z*Z))`: state ++ constants per validation state of program i
+    pub fn emit_inputs(&self, prefix: &str, i: usize) -> String {
+        let rows: Vec<String> = self
+            .tv
+            .iter()
+            .filter(|(k, _, _)| *k == i)
+            .map(|(_, s, cs)| {
+                let mut x = s.vars();
+                x.extend(cs);
+                crate::emit::dy_list(&x)
+            })
+            .collect();
+        format!("Definition {}{}_inputs : list (list (Z * Z)) := [{}].\n", prefix, i, rows.join(";\n "))
+    }
 }
 
 /// plain f64 evaluation of the same outputs (what the implementation returns)
